@@ -257,12 +257,25 @@ static void process_mrs(char *instruction, int length, uint32_t opcode)
 
 static void process_msr_all(char *instruction, int length, uint32_t opcode)
 {
+  int i = (opcode >> 25) & 1;
   int ps = (opcode >> 22) & 1;
 
-  snprintf(instruction, length, "msr%s %s, %s",
-    arm_cond[ARM_NIB(28)],
-    (ps == 1) ? "SPSR" : "CPSR",
-    arm_reg[ARM_NIB(0)]);
+  if (i == 0)
+  {
+    snprintf(instruction, length, "msr%s %s, %s",
+      arm_cond[ARM_NIB(28)],
+      (ps == 1) ? "SPSR" : "CPSR",
+      arm_reg[ARM_NIB(0)]);
+  }
+    else
+  {
+    snprintf(instruction, length, "msr%s %s, #0x%x {#0x%02x, %d}",
+      arm_cond[ARM_NIB(28)],
+      (ps == 1) ? "SPSR" : "CPSR",
+      compute_immediate(opcode & 0xfff),
+      opcode & 0xff,
+      (opcode & 0xf00) >> 7);
+  }
 }
 
 static void process_msr_flag(char *instruction, int length, uint32_t opcode)
